@@ -210,3 +210,52 @@ def plan_C08(tier, seed, q):
             "assumptions": ["frames are delivered through socket.Messages (never raw stream garbage below the frame layer, whose length-prefix parser belongs to hslam/socket)",
                             "handlers of the harness are total; corrupted harness payload headers are clamped so that a corrupted delay/size field cannot stall the worker",
                             "poll-mode servers are exercised by the real-network engines, not here"]}
+
+
+def pool_jobs(prop, tier, seed, classes, shards=6, kind="vt", timeout=1500):
+    jobs = []
+    for cls, n in classes:
+        jobs += shard(kind, "pool", prop, tier, seed, n, shards, timeout=timeout, extra={"class": cls})
+    return jobs
+
+
+POOL_RULE = ("history = (limits, KeepAlive, IdleConnTimeout, 1-3 addresses, 1-32 callers with virtual think times 0-3 s using every call form, "
+             "pings and streams, long handlers of 0.5-30 x KeepAlive, CloseIdleConnections at PRNG instants, kill/restart of servers, and hook H1 "
+             "sleeping <tick / >KeepAlive / >KeepAlive+IdleConnTimeout of virtual time between getConn and the use of the connection) derived "
+             "from (seed, index) and run against a real Transport and real servers over memnet in virtual time; distinct = distinct history "
+             "parameters; non-trivial = more than one call")
+
+
+def plan_C13(tier, seed, q):
+    n = 400 if q else 12000
+    jobs = pool_jobs("C13", tier, seed, [("limits", n), ("busy", n // 4)], shards=8)
+    if not q:
+        jobs += pool_jobs("C13", tier, seed + 1, [("limits", 800)], shards=8, kind="vt-race", timeout=3000)
+    return {"level": "exploration", "rule": POOL_RULE + "; oracles: at every dial (inside memnet's dial critical section) the number of client-side "
+            "open connections to the address is <= the effective MaxConnsPerHost; at every 250 ms of virtual time hook H3 shows idle <= effective "
+            "MaxIdleConnsPerHost and active+idle <= MaxConnsPerHost; non-positive limits fall back to the defaults and idle is clamped",
+            "jobs": jobs, "min_evaluations": 100, "min_distinct": 50, "assumptions": V_ASSUME}
+
+
+def plan_C14(tier, seed, q):
+    n = 400 if q else 12000
+    jobs = pool_jobs("C14", tier, seed, [("restart", n), ("limits", n // 2)], shards=8)
+    if not q:
+        jobs += pool_jobs("C14", tier, seed + 1, [("restart", 800)], shards=8, kind="vt-race", timeout=3000)
+    return {"level": "fault_enumeration", "rule": POOL_RULE + "; class 'restart': one sequential caller with call spacing from {10 ms .. 6 s} around "
+            "KeepAlive/IdleConnTimeout, server killed at a PRNG-chosen call and restarted 1-4 calls later; oracles: an execution appears only in a "
+            "ledger of the requested address; while down calls return ErrDial/ErrShutdown in zero virtual time; ErrShutdown failures after the kill "
+            "<= connections pooled at the kill (hook H3); no other error once restarted; the caller succeeds again",
+            "jobs": jobs, "min_evaluations": 100, "min_distinct": 50, "assumptions": V_ASSUME}
+
+
+def plan_C15(tier, seed, q):
+    n = 400 if q else 12000
+    jobs = pool_jobs("C15", tier, seed, [("busy", n), ("limits", n // 2)], shards=8)
+    if not q:
+        jobs += pool_jobs("C15", tier, seed + 1, [("busy", 800)], shards=8, kind="vt-race", timeout=3000)
+    return {"level": "exploration", "rule": POOL_RULE + "; oracles: a call (or stream) to a never-killed server whose request had been written to a "
+            "connection (wire tap) must not fail because the client side closed that connection; KeepAlive + IdleConnTimeout + 2 ticks after the "
+            "last use no client-side connection is open; none is open after Transport.Close",
+            "jobs": jobs, "min_evaluations": 100, "min_distinct": 50, "assumptions": V_ASSUME + [
+                "a connection closed by housekeeping inside the H1 window before the request was written is outside the statement and only counted"]}
